@@ -580,6 +580,17 @@ fn oracle_solve(r: &Req, out: &str) -> Result<(), String> {
             }
         }
     }
+    // every step length that reaches add_step lies in (0,1] (C07.step_in_unit); in particular
+    // it is a number
+    if r.has("alpha") {
+        let alphas = r.fs("alpha");
+        let sm: Vec<&str> = field(out, "sm").unwrap_or("").split(',').collect();
+        for (k, a) in alphas.iter().enumerate() {
+            if sm.get(k) == Some(&"NoUpdate") && !(*a > 0.0 && *a <= 1.0) {
+                return Err(format!("pass {}: step length {:e} reached add_step", k, a));
+            }
+        }
+    }
     // printed iteration column (verbose only)
     if r.b("verbose") {
         let rows: Vec<usize> = field(out, "rows").unwrap_or("").split(',').filter(|s| !s.is_empty())
